@@ -7,6 +7,8 @@ ROOT="$(cd "$(dirname "$0")/.." && pwd)"
 export GOFLAGS=-mod=mod GOPROXY=off GOSUMDB=off GOTOOLCHAIN=local
 [ $# -eq 0 ] && set -- "$ROOT"/seeded/*
 rc=0
+export VERIF_EVIDENCE_DIR=/var/tmp/verif-seeded-evidence-$$
+trap 'rm -rf "$VERIF_EVIDENCE_DIR"' EXIT
 for d in "$@"; do
   d=$(cd "$d" && pwd)
   name=$(basename "$d")
